@@ -274,3 +274,13 @@ def _canary_sink_peek_consumes():
 CANARIES = [("StreamSource.write always ready (overwrites a stalled item)", _canary_source_always_ready),
             ("StreamSource drops valid without a transfer", _canary_source_drops_valid),
             ("StreamSink.peek consumes", _canary_sink_peek_consumes)]
+
+
+def _callers_items():
+    from transactron.lib.stream import StreamSource
+
+    return [("StreamSource(2 bits)", lambda: StreamSource(2), [("write", ["write"])], [])]
+
+
+from ..excl import install as _install  # noqa: E402
+_install(globals(), _callers_items())
